@@ -23,9 +23,10 @@ def prefixNeedsVar : Expr → Bool
   | .paren inner => !isSimpleInner inner
   | _ => true
 
-/-- does the key of an index target need a temporary? (note `InterpolatedString` in the "no" list) -/
+/-- does the key of an index target need a temporary? (an interpolated string does, since the fix of
+finding F29: it used to be in the "no" list, and its value segments were evaluated twice) -/
 def indexNeedsVar : Expr → Bool
-  | .false | .var _ | .num _ | .nil | .interp _ | .str _ | .true | .vararg => false
+  | .false | .var _ | .num _ | .nil | .str _ | .true | .vararg => false
   | .paren inner => !isSimpleInner inner
   | _ => true
 
